@@ -185,10 +185,26 @@ def run(rep, rng, tier):
             if p["topic"] != RESP:
                 continue       # a broker only delivers the subscribed response topic
             up = p.get("up", "-")
-            toks.append(f"msg:{cp(p['topic'])}:{cp(p['payload'])}:{p['cd'] if p['cd'] != '-' else '-'}:{'K' + up if up != '-' else '-'}")
+            toks.append((p["cd"], f"msg:{cp(p['topic'])}:{cp(p['payload'])}:{p['cd'] if p['cd'] != '-' else '-'}:{'K' + up if up != '-' else '-'}"))
             hist[p["code"]] = hist.get(p["code"], 0) + 1
         n_resp += len(toks)
-        pl_["line"] = f"py {pl_['id']} {pl_['variant']} " + " ".join(req_tokens(pl_["reqs"]) + toks)
+        rt = req_tokens(pl_["reqs"])
+        if pl_["mode"] == "seq":
+            # as in sequential use: each request is followed by the device's answer to it; sometimes the
+            # answer (or its first part) overtakes the return of publish()
+            seq = []
+            for k, tok in enumerate(rt):
+                own = [t for cd, t in toks if cd == "%02x" % k * 16]
+                early = rng.choice([0, 0, 1, len(own)]) if own else 0
+                if early:
+                    seq.append(f"inpub:{early}")
+                    hist["overtaking"] = hist.get("overtaking", 0) + 1
+                seq.append(tok)
+                seq += own
+            seq += [t for cd, t in toks if len(cd) != 32]
+            pl_["line"] = f"py {pl_['id']} {pl_['variant']} " + " ".join(seq)
+        else:
+            pl_["line"] = f"py {pl_['id']} {pl_['variant']} " + " ".join(rt + [t for _cd, t in toks])
         py_lines.append(pl_["line"])
         try:
             items, exp = model_items(pl_["ev"], recs, pl_["fam"])
